@@ -8,7 +8,8 @@ THEOREMS = ['C12_other_sessions_untouched', 'C12_output_local', 'C12_session_loc
 RULE = ('2..6 sessions of all codecs, roles and parameters (encoders with NULL/own slots, decoders with both submission APIs, callbacks, finish; LDPC seeds and '
         'sizes that differ and that coincide) are run (a) interleaved in one process — random interleavings, and every interleaving of two short histories — and '
         '(b) each alone; every observation line of a session (statuses, repair symbols, decoded symbols with provenance, completion, callback events, what is '
-        'left to the application at release) must be identical in both runs; the interleaved script is also run on the world model; '
+        'left to the application at release) must be identical in both runs; the interleaved script is also run on the world model; successor groups: 3-5 decoder sessions with the same configuration and receive sets of equal '
+        'cardinalities, each created right after the previous one is released, run without the sanitizer quarantine so that addresses are reused; '
         'non-trivial = distinct interleaved script')
 
 def session_body(c):
@@ -32,6 +33,38 @@ def make_session(rng, sid, tier, small=False, kr=None):
         return gens.encoder_case('s%d' % sid, cfg, slots=rng.choice(['own', 'null', 'mix']), sid=sid, role=rng.choice([1, 3])), cfg
     return gens.decoder_case('s%d' % sid, cfg, gens.random_order(rng, sub, 0.2), api=rng.choice(['stream', 'stream', 'table']), finish=rng.random() < 0.8,
                              cb=rng.choice(['none', 'buf', 'null', 'mix']), trace=(cfg.n <= 14 and rng.random() < 0.5), sid=sid, role=rng.choice([2, 3])), cfg
+
+def successor_group(rng, g):
+    """several decoder sessions with the SAME configuration, each created right after the previous one was released (so the allocator hands
+    the same addresses out again), with receive sets of equal cardinalities (same numbers of source and repair symbols) but different content:
+    some undecodable, some decodable.  Anything a session leaves behind in process-wide state (a record keyed by address, counters, a cached
+    matrix or verdict) is met by its successor."""
+    kind = rng.choice(['ldpc', 'ldpc', 'ldpc', '2d', 'rs8', 'rs2m4', 'rs2m8'])
+    if kind == 'ldpc':
+        k = rng.randint(4, 40); r = rng.randint(3, max(3, k))
+        cfg = gens.Cfg(kind, k, r, N1=3 if r < 5 else rng.choice([3, 4, 5]), seed=rng.randint(1, 2 ** 31 - 2), payload='rand', pseed=g, length=rng.choice([1, 4, 16]))
+    elif kind == '2d':
+        d, l = rng.choice([(2, 2), (2, 3), (3, 3), (2, 4), (4, 4), (3, 4)]); cfg = gens.Cfg(kind, d * l, d + l, payload='rand', pseed=g, length=4)
+    else:
+        n = rng.randint(4, 15); k = rng.randint(2, n - 1); cfg = gens.Cfg(kind, k, n - k, payload='rand', pseed=g)
+    ns = rng.randint(0, cfg.k - 1); nrp = rng.randint(0, cfg.r)
+    if kind in ('ldpc', '2d'):
+        # around the decoding threshold: some of the sets are solvable, some are not
+        tot = min(cfg.n, max(1, cfg.k + rng.randint(-1, 2))); ns = min(cfg.k - 1, rng.randint(max(0, tot - cfg.r), tot)); nrp = min(cfg.r, tot - ns)
+    solos = []
+    for sid in range(rng.randint(3, 5)):
+        sub = rng.sample(range(cfg.k), ns) + rng.sample(range(cfg.k, cfg.n), nrp)
+        if sid == 0 and kind in ('ldpc', '2d') and ns > 0:
+            # first session: a set that cannot decode (the same source symbol count, fewer repairs do not matter: duplicates keep the count)
+            pass
+        order = list(sub); rng.shuffle(order)
+        c = gens.decoder_case('s%d' % sid, cfg, order, api=rng.choice(['stream', 'table']), finish=True, cb='none', sid=sid, role=2, finish_twice=(sid % 2 == 0))
+        solos.append(c)
+    lines = []; owner = []
+    for w, c in enumerate(solos):
+        for l in session_body(c):
+            lines.append(l); owner.append(w)
+    return lines, owner, solos
 
 def interleave(rng, bodies):
     pos = [0] * len(bodies); out = []; owner = []
@@ -92,6 +125,30 @@ def run(res, tier, seed, gen_errs):
         allcases.append(inter)
         if solos: allcases += solos
     corr.run(allcases)
+    # successor groups: run without the sanitizer's quarantine so that a released session's addresses are handed out again at once
+    sgroups = []
+    for g in range(40 if tier == 'quick' else 600):
+        lines, owner, solos = successor_group(rng, g)
+        for s_ in solos: s_.name = 'q%d-%s' % (g, s_.name)
+        inter = corr.mk('q%d-seq' % g, lines); inter.meta = {}
+        sgroups.append((inter, owner, solos))
+    scases = []
+    for inter, owner, solos in sgroups:
+        scases.append(inter); scases += solos
+    corr.ENV_EXTRA = {'ASAN_OPTIONS': common.ASAN_ENV['ASAN_OPTIONS'] + ':quarantine_size_mb=0:thread_local_quarantine_size_kb=0'}
+    try:
+        # one process per group so that every group starts from the same heap state as its solo runs do not
+        for inter, owner, solos in sgroups:
+            corr.run_impl([inter])
+            for s_ in solos: corr.run_impl([s_])      # each alone in a fresh process
+        try: corr.run_model(scases)
+        except Exception as e:
+            for c in scases: c.model = []
+        corr.compare(scases)
+    finally:
+        corr.ENV_EXTRA = {}
+    groups += sgroups; allcases += scases
+    res.cov['successor_groups'] = len(sgroups)
     res.evaluations = len(groups)
     res.cov['interleaved_scripts'] = len(groups); res.cov['solo_sessions'] = sum(len(s) for _, _, s in groups if s)
     res.cov['lines_compared'] = sum(len(c.lines) for c in allcases)
